@@ -136,9 +136,9 @@ CHECKS = {
         "note": COMMON_NOTE + "np.percentile itself is external: its return value is compared with the model's percentileValue on every case. A few ulps of rounding at the max faces are allowed in the float stream (atol = 4 ulp of the scale), exact on the lattice stream.",
     },
     "C20": {
-        "text": "126 theorems. Shape strictness (proof via translator): every public callable's sequence of shape validations is regenerated from the source as data; for 81 callables a theorem states accepts(generated signature) <-> documented single/stacked forms for "
+        "text": "130 theorems. Shape strictness (proof via translator): every public callable's sequence of shape validations is regenerated from the source as data; for 81 callables a theorem states accepts(generated signature) <-> documented single/stacked forms for "
                 "every argument value of any rank (2 partial, 2 known findings with proved witnesses for the Rodrigues element-count dispatch); a removed or loosened check breaks that callable's theorem. Elementwise: structural theorems that the stacked model is map/zipWith "
-                "of the single one (empty stacks, length mismatch) + row-vs-stack comparison of all 37 stack-capable callables. Purity: partial proof on an alias abstraction generated from the source (Gen/Effects.lean: all 171 public callables and helpers as programs of bind / write / call statements; abstract interpreter proved sound for that language, PW.Effects.sound; gen_summaries_stable, gen_argument_writes: only the documented builders of CompositeTransform / CoordinateManager and the validator cache write through a parameter; public_callables_leave_arguments_unchanged) + runtime monitor (write-protected arguments, byte comparison, self snapshots, determinism re-run, kept apply_transform closures). "
+                "of the single one (empty stacks, length mismatch) + row-vs-stack comparison of all 37 stack-capable callables. Purity: partial proof on an alias abstraction generated from the source (Gen/Effects.lean: all 171 public callables and helpers as programs of bind / write / call statements; abstract interpreter proved sound for that language, PW.Effects.sound; gen_summaries_stable, gen_argument_writes: only the documented builders of CompositeTransform / CoordinateManager and the validator cache write through a parameter; public_callables_leave_arguments_unchanged; results: PW.Effects.sound_reach, gen_copying_constructors — objects built by Polyline / Plane keep no memory of their arguments —, results_share_memory_only_as_listed; every program has the module-level / closure state as an extra parameter, so memos and kept buffers are writes) + runtime monitor (write-protected arguments, byte comparison, self snapshots, determinism re-run, kept apply_transform closures). "
                 "Tie: exhaustive shape sweep (thorough: all 1,555 shapes of rank <= 4, dims <= 5, every argument position of 123 callables) against the model's prediction.",
         "note": COMMON_NOTE + "Purity is proved for the generated alias programs only: that the Python source behaves like its alias program (which expressions return views, which NumPy calls work in place, loops unrolled a bounded number of times, no writes through module globals) is the translator's trusted abstraction, validated by the runtime monitor; determinism is monitored, not proved. Callables validated only inside vg (Polyline.apex) or without array arguments have no shape theorem and are judged by the oracle only.",
     },
